@@ -29,7 +29,13 @@ def sig_of(m):
 
 
 def run_k(ctx, kres):
-    return k_suite(ctx, kres, "K09-objects", ksuites.corpus_traces("C09") + ksuites.object_traces(ctx), in_projection, sig_of=sig_of)
+    from .. import gen
+    from ..main import Trace
+    v = k_suite(ctx, kres, "K09-objects", ksuites.corpus_traces("C09") + ksuites.object_traces(ctx), in_projection, sig_of=sig_of)
+    # refused C_UnwrapKey (damaged blobs) / C_DeriveKey (too-short secrets, bad parameters): nothing may stay behind
+    n = 16 if ctx.quick else 300
+    v += k_suite(ctx, kres, "K09-unwrap-derive", [Trace("wrap%d" % i, gen.wrap_history(ctx.seed * 3497861 + i, 50)) for i in range(n)], in_projection, sig_of=sig_of)
+    return v
 
 
 def judge(ctx, results):
